@@ -220,6 +220,11 @@ func run(sc vlib.Scenario, cfg vsched.Config) (*vsched.Result, vlib.Verdict) {
 	}
 	if res.Outcome != vsched.Completed {
 		v.Inconclusive = "not-completed:" + w.Phase
+		if w.Phase == "running" {
+			// the harness only sleeps on the virtual clock in this phase: a library thread spins or the keep-alive wedged the scheduler
+			v.Inconclusive = ""
+			v.Fail("C15.blocked", w.p.Mode, "the scenario never reached its horizon (%v): %v", w.horizon, res.Outcome)
+		}
 		return res, v
 	}
 	w.Disc = w.Disc[:w.discBefore] // the notification caused by our own final Close does not count
